@@ -310,6 +310,15 @@ def open_ended_group_parallel_limit(case, v):
                             for d in (spec['nodes'][m].get('deg') for m in g['members']))
                 if max(n_max, g_min) >= 3:
                     return True
+                # ... and the reverse: the cap of the override list comes from the base graph's limit (2 when both sides
+                # are open-ended there), while in a scenario where the opposite group lost its open-ended member its
+                # finite members allow more (e.g. [1, 3]): the processor then LOSES the sets with 3 parallel connections
+                for it in cc[other]:
+                    if isinstance(it, dict) and any(_open_ended(spec, m) for m in it['members']):
+                        fin = [max(spec['nodes'][m]['deg']) for m in it['members']
+                               if isinstance(spec['nodes'][m].get('deg'), list)]
+                        if fin and sum(fin) >= 3:
+                            return True
     return False
 
 
